@@ -878,39 +878,52 @@ Qed.
 
 (* ---------- the translator, component-wise ---------- *)
 Fixpoint size (e : ex) : nat :=
-  match e with EInt _ => 0 | ECount k => 3 + gsize (k_guard k) + agg_nifs (k_agg k) | EBin _ a b => size a + size b end.
+  match e with EInt _ => 0 | ECount k => 3 + gsize (k_guard k) + agg_nifs (k_agg k) | EBin _ a b => size a + size b | EIdx _ _ _ => 1 end.
+Definition idx_cv (c : collref) (n : nat) : string := nm (c_base c) n.
 Fixpoint tds (e : ex) (n : nat) : list decl :=
-  match e with EInt _ => [] | ECount k => tcount_decls k n | EBin _ a b => tds a n ++ tds b (n + size a) end.
+  match e with
+  | EInt _ => [] | ECount k => tcount_decls k n | EBin _ a b => tds a n ++ tds b (n + size a)
+  | EIdx c _ _ => [{| d_type := c_ctype c; d_name := idx_cv c n; d_init := None |}]
+  end.
 Fixpoint tss (idiom : string) (e : ex) (n : nat) : stmts :=
   match e with
   | EInt _ => SNil | ECount k => tcount_stmts idiom k n
   | EBin _ a b => app_stmts (tss idiom a n) (tss idiom b (n + size a))
+  | EIdx c _ _ => one_stmt (SFetch idiom (idx_cv c n) (c_ctype c) (c_bank c) (fetch_lines idiom (c_ctype c) (c_bank c)))
   end.
+Definition idx_exp (c : collref) (i : nat) (m : string) (n : nat) : cexp :=
+  CMeth (CMeth (CVar (idx_cv c n)) true "at" (CCons (CInt (Z.of_nat i)) CNil)) (c_arrow c) m CNil.
 Fixpoint tc (e : ex) (n : nat) : cexp :=
   match e with
   | EInt z => CInt z | ECount k => CVar (kagg k n)
   | EBin o a b => CBin (op_str o) (tc a n) (tc b (n + size a))
+  | EIdx c i m => idx_exp c i m n
   end.
 Lemma te_split (idiom : string) (e : ex) : forall n, te idiom e n = (tds e n, tss idiom e n, tc e n, n + size e).
 Proof.
-  induction e as [z|k|o a IHa b IHb]; intro n; cbn [te tds tss tc size].
+  induction e as [z|k|o a IHa b IHb|c i m]; intro n; cbn [te tds tss tc size].
   - rewrite Nat.add_0_r. reflexivity.
   - replace (n + (3 + gsize (k_guard k) + agg_nifs (k_agg k))) with (S (S (S n)) + gsize (k_guard k) + agg_nifs (k_agg k)) by lia. reflexivity.
   - rewrite IHa, IHb. rewrite Nat.add_assoc. reflexivity.
+  - rewrite Nat.add_1_r. reflexivity.
 Qed.
 
 Fixpoint vars (e : ex) (n : nat) : list string :=
   match e with
   | EInt _ => [] | ECount k => [cv_name k n; kagg k n]
   | EBin _ a b => vars a n ++ vars b (n + size a)
+  | EIdx c _ _ => [idx_cv c n]
   end.
 Fixpoint bases_ok (e : ex) : bool :=
-  match e with EInt _ => true | ECount k => base_ok (c_base (k_coll k)) | EBin _ a b => bases_ok a && bases_ok b end.
+  match e with
+  | EInt _ => true | ECount k => base_ok (c_base (k_coll k)) | EBin _ a b => bases_ok a && bases_ok b
+  | EIdx c _ _ => base_ok (c_base c)
+  end.
 
 Lemma vars_shape (e : ex) : forall n x, bases_ok e = true -> In x (vars e n) ->
   exists b i, x = nm b i /\ last_digit b = false /\ first_not_underscore b = true /\ n <= i < n + size e.
 Proof.
-  induction e as [z|k|o a IHa b IHb]; intros n x Hb Hin; cbn [vars size bases_ok] in *.
+  induction e as [z|k|o a IHa b IHb|c i0 m]; intros n x Hb Hin; cbn [vars size bases_ok] in *.
   - destruct Hin.
   - unfold base_ok in Hb. apply andb_prop in Hb as [H1 H2]. apply negb_true_iff in H1.
     destruct Hin as [<-|[<-|[]]].
@@ -919,6 +932,8 @@ Proof.
   - apply andb_prop in Hb as [Ha Hb']. apply in_app_or in Hin as [Hin|Hin].
     + destruct (IHa n x Ha Hin) as (bb & i & E & L & F & R). exists bb, i. repeat split; auto; lia.
     + destruct (IHb _ x Hb' Hin) as (bb & i & E & L & F & R). exists bb, i. repeat split; auto; lia.
+  - unfold base_ok in Hb. apply andb_prop in Hb as [H1 H2]. apply negb_true_iff in H1.
+    destruct Hin as [<-|[]]. exists (c_base c), n. repeat split; auto; lia.
 Qed.
 
 Lemma vars_disjoint (a b : ex) (n : nat) (x : string) :
@@ -930,13 +945,7 @@ Proof.
   subst x. apply (nm_inj b1 b2 i j L1 L2) in E2. lia.
 Qed.
 
-(* ---------- reference semantics in two phases ---------- *)
-Fixpoint dstm (ev : event) (e : ex) : res unit :=
-  match e with
-  | EInt _ => ROk tt
-  | ECount k => rdo _ <- dcount ev k; ROk tt
-  | EBin _ a b => rdo _ <- dstm ev a; dstm ev b
-  end.
+(* ---------- reference semantics in two phases (dstm, dex: Model/FragTranslate.v) ---------- *)
 
 Lemma arith_total (o : bop) (x y : value) : arithable x -> arithable y -> exists v, arith (op_str o) x y = ROk v /\ arithable v.
 Proof.
@@ -966,20 +975,25 @@ Proof.
   apply agg_loop_arithable. apply conv_arithable. right. destruct (k_agg k) as [|[z0|t nn dd] aop body]; cbn; eauto.
 Qed.
 
-Lemma de_phases (ev : event) (e : ex) :
-  match de ev e with
-  | ROk v => dstm ev e = ROk tt /\ arithable v
-  | RFault f => dstm ev e = RFault f
-  | RStuck _ => True
-  end.
+(* the first phase succeeds whenever the ordinary evaluation has a value *)
+Lemma dstm_of_de (ev : event) (e : ex) : forall v, de ev e = ROk v -> dstm ev e = ROk tt.
 Proof.
-  induction e as [z|k|o a IHa b IHb]; cbn [de dstm].
-  - split; [reflexivity|]. right. cbn. eauto.
-  - destruct (dcount ev k) eqn:E; cbn [rbind]; auto. split; [reflexivity|]. eapply dcount_arithable. exact E.
-  - destruct (de ev a) as [x|f|kk]; cbn [rbind]; [|rewrite IHa; reflexivity|exact I].
-    destruct IHa as [Ea Nx]. rewrite Ea. cbn [rbind].
-    destruct (de ev b) as [y|f|kk]; cbn [rbind]; [|exact IHb|exact I].
-    destruct IHb as [Eb Ny]. destruct (arith_total o x y Nx Ny) as (v & Ev & Nv). rewrite Ev. split; assumption.
+  induction e as [z|k|o a IHa b IHb|c i m]; intros v H; cbn [de dstm] in *.
+  - reflexivity.
+  - rewrite H. reflexivity.
+  - destruct (de ev a) as [x|f|kk]; cbn [rbind] in H; try discriminate.
+    destruct (de ev b) as [y|f|kk]; cbn [rbind] in H; try discriminate.
+    rewrite (IHa x eq_refl). cbn [rbind]. exact (IHb y eq_refl).
+  - unfold didx in H. destruct (assoc_ss (c_ctype c, c_bank c) (ev_colls ev)) as [w|]; [reflexivity|discriminate].
+Qed.
+
+(* the two-phase reference and the ordinary evaluation have the same values: they can differ only in WHICH fault an
+   undefined expression raises *)
+Lemma dex_natural (ev : event) (e : ex) (v : value) : dex ev e = ROk v <-> de ev e = ROk v.
+Proof.
+  unfold dex. split; intro H.
+  - destruct (dstm ev e) as [[]|f|k]; cbn [rbind] in H; [exact H|discriminate|discriminate].
+  - rewrite (dstm_of_de ev e v H). exact H.
 Qed.
 
 (* ---------- the statements of an expression ---------- *)
@@ -989,12 +1003,13 @@ Fixpoint declared (e : ex) (n : nat) (st : state) : Prop :=
   | ECount k => (exists t v, fget (cv_name k n) st = Some (t, v)) /\
                 fget (kagg k n) st = Some (agg_type k, conv (agg_type k) (agg_seed (k_agg k)))
   | EBin _ a b => declared a n st /\ declared b (n + size a) st
+  | EIdx c _ _ => exists t v, fget (idx_cv c n) st = Some (t, v)
   end.
 
 Lemma declared_ext (e : ex) : forall n st st',
   (forall x, In x (vars e n) -> fget x st' = fget x st) -> declared e n st -> declared e n st'.
 Proof.
-  induction e as [z|k|o a IHa b IHb]; intros n st st' H D; cbn [declared vars] in *.
+  induction e as [z|k|o a IHa b IHb|c i m]; intros n st st' H D; cbn [declared vars] in *.
   - exact I.
   - destruct D as [(t & v & D1) D2]. split.
     + exists t, v. rewrite H; [exact D1|left; reflexivity].
@@ -1002,6 +1017,7 @@ Proof.
   - destruct D as [Da Db]. split.
     + eapply IHa; [|exact Da]. intros x Hx. apply H, in_or_app. left; exact Hx.
     + eapply IHb; [|exact Db]. intros x Hx. apply H, in_or_app. right; exact Hx.
+  - destruct D as (t & v & D). exists t, v. rewrite H; [exact D|left; reflexivity].
 Qed.
 
 (* the value expression only reads the accumulators of the expression *)
@@ -1011,7 +1027,7 @@ Definition bound (e : ex) (n : nat) (st : state) : Prop :=
 Lemma tc_ext (ev : event) (e : ex) : forall n s1 s2,
   bound e n s1 -> (forall x, In x (vars e n) -> fget x s2 = fget x s1) -> eval ev s2 (tc e n) = eval ev s1 (tc e n).
 Proof.
-  induction e as [z|k|o a IHa b IHb]; intros n s1 s2 D H; cbn [tc vars] in *.
+  induction e as [z|k|o a IHa b IHb|c i m]; intros n s1 s2 D H; cbn [tc vars] in *.
   - reflexivity.
   - destruct (D (kagg k n)) as [tv E1]; [right; left; reflexivity|].
     assert (E2 : fget (kagg k n) s2 = Some tv) by (rewrite H; [exact E1|right; left; reflexivity]).
@@ -1022,6 +1038,14 @@ Proof.
       with (rbind (eval ev s1 (tc a n)) (fun x => rbind (eval ev s1 (tc b (n + size a))) (fun y => arith (op_str o) x y))).
     rewrite (IHa n s1 s2), (IHb (n + size a) s1 s2); [reflexivity| | | |];
       try (intros x Hx; apply H, in_or_app; auto); intros x Hx; apply D; cbn [vars]; apply in_or_app; auto.
+  - destruct (D (idx_cv c n)) as [tv E1]; [left; reflexivity|].
+    assert (E2 : fget (idx_cv c n) s2 = Some tv) by (rewrite H; [exact E1|left; reflexivity]).
+    unfold idx_exp.
+    change (eval ev s2 (CMeth (CMeth (CVar (idx_cv c n)) true "at" (CCons (CInt (Z.of_nat i)) CNil)) (c_arrow c) m CNil))
+      with (rbind (rbind (eval ev s2 (CVar (idx_cv c n))) (fun x => call_method ev x "at" [VInt (Z.of_nat i)])) (fun y => call_method ev y m [])).
+    change (eval ev s1 (CMeth (CMeth (CVar (idx_cv c n)) true "at" (CCons (CInt (Z.of_nat i)) CNil)) (c_arrow c) m CNil))
+      with (rbind (rbind (eval ev s1 (CVar (idx_cv c n))) (fun x => call_method ev x "at" [VInt (Z.of_nat i)])) (fun y => call_method ev y m [])).
+    rewrite !eval_var, (lookup_fget _ _ _ E1), (lookup_fget _ _ _ E2). reflexivity.
 Qed.
 
 Lemma te_exec (brs : list branch) (ev : event) (idiom : string) (e : ex) : forall (n : nat) (st : state),
@@ -1031,12 +1055,12 @@ Lemma te_exec (brs : list branch) (ev : event) (idiom : string) (e : ex) : foral
                          members st' = members st /\ rows st' = rows st /\
                          (forall y, ~ In y (vars e n) -> fget y st' = fget y st) /\
                          bound e n st' /\
-                         eval ev st' (tc e n) = de ev e
+                         (nstuck (de ev e) -> eval ev st' (tc e n) = de ev e)
   | RFault f => exec_stmts brs ev (tss idiom e n) st = RFault f
   | RStuck _ => True
   end.
 Proof.
-  induction e as [z|k|o a IHa b IHb]; intros n st Hb D; cbn [dstm tss tc vars de declared bases_ok] in *.
+  induction e as [z|k|o a IHa b IHb|c i m]; intros n st Hb D; cbn [dstm tss tc vars de declared bases_ok] in *.
   - exists st. repeat split; auto. intros x [].
   - destruct D as [(tcv & v0 & Dcv) Dagg].
     unfold base_ok in Hb. apply andb_prop in Hb as [Hl _]. apply negb_true_iff in Hl.
@@ -1065,7 +1089,7 @@ Proof.
       * assert (N3 : String.eqb (cv_name k n) (kagg k n) = false) by (rewrite String.eqb_sym; exact N1).
         rewrite (O2 _ N3), G1. eauto.
       * rewrite G2. eauto.
-    + rewrite eval_var, (lookup_fget _ _ _ G2). destruct z; try reflexivity. contradiction.
+    + intros _. rewrite eval_var, (lookup_fget _ _ _ G2). destruct z; try reflexivity. contradiction.
   - apply andb_prop in Hb as [Hba Hbb]. destruct D as [Da Db].
     specialize (IHa n st Hba Da). rewrite exec_stmts_app.
     destruct (dstm ev a) as [[]|f|kk]; cbn [rbind]; [|rewrite IHa; reflexivity|exact I].
@@ -1080,10 +1104,28 @@ Proof.
     + intros x Hx. apply in_app_or in Hx as [Hx|Hx].
       * rewrite U2; [apply B1, Hx|]. intro Hxb. exact (vars_disjoint a b n x Hba Hbb Hx Hxb).
       * apply B2, Hx.
-    + change (eval ev st2 (CBin (op_str o) (tc a n) (tc b (n + size a))))
+    + intro Hn.
+      change (eval ev st2 (CBin (op_str o) (tc a n) (tc b (n + size a))))
         with (rbind (eval ev st2 (tc a n)) (fun x => rbind (eval ev st2 (tc b (n + size a))) (fun y => arith (op_str o) x y))).
-      rewrite (tc_ext ev a n st1 st2 B1), V1, V2; [reflexivity|].
-      intros x Hx. apply U2. intro Hxb. exact (vars_disjoint a b n x Hba Hbb Hx Hxb).
+      rewrite (tc_ext ev a n st1 st2 B1), (V1 (nstuck_bind_l _ _ Hn));
+        [|intros x Hx; apply U2; intro Hxb; exact (vars_disjoint a b n x Hba Hbb Hx Hxb)].
+      destruct (de ev a) as [x|f|kk]; cbn [rbind] in *; [|reflexivity|destruct Hn].
+      rewrite (V2 (nstuck_bind_l _ _ Hn)). reflexivity.
+  - destruct D as (t & v0 & Dcv). rewrite exec_one. cbn [exec_stmt].
+    destruct (assoc_ss (c_ctype c, c_bank c) (ev_colls ev)) as [w|] eqn:Ea; [|reflexivity].
+    destruct (assign_upd (idx_cv c n) w st t v0 Dcv) as (Has & _ & G1 & O1 & M1 & R1).
+    rewrite Has. eexists. split; [reflexivity|]. split; [exact M1|]. split; [exact R1|]. split; [|split].
+    + intros y Hy. apply O1. destruct (String.eqb y (idx_cv c n)) eqn:E; [|reflexivity].
+      apply String.eqb_eq in E. exfalso. apply Hy. left; auto.
+    + intros x [<-|[]]. rewrite G1. eauto.
+    + intro Hn. unfold idx_exp, didx in *. rewrite Ea in *.
+      change (eval ev (upd (idx_cv c n) w st) (CMeth (CMeth (CVar (idx_cv c n)) true "at" (CCons (CInt (Z.of_nat i)) CNil)) (c_arrow c) m CNil))
+        with (rbind (rbind (eval ev (upd (idx_cv c n) w st) (CVar (idx_cv c n))) (fun x => call_method ev x "at" [VInt (Z.of_nat i)])) (fun y => call_method ev y m [])).
+      rewrite eval_var, (lookup_fget _ _ _ G1).
+      destruct w; try (destruct Hn); try reflexivity.
+      cbn [rbind call_method]. change (String.eqb "at" "at") with true. cbv iota.
+      assert (Z0 : (Z.of_nat i <? 0)%Z = false) by (apply Z.ltb_ge, Nat2Z.is_nonneg). rewrite Z0, Nat2Z.id.
+      destruct (nth_error l i) as [y|]; reflexivity.
 Qed.
 
 (* pa_type is int or double *)
@@ -1144,7 +1186,12 @@ Lemma decls_declared (ev : event) (e : ex) : forall (n : nat) (st : state),
               members st' = members st /\ rows st' = rows st /\
               (forall y, ~ In y (vars e n) -> fget y st' = fget y st).
 Proof.
-  induction e as [z|k|o a IHa b IHb]; intros n st Hb Hf; cbn [tds vars declared bases_ok] in *.
+  induction e as [z|k|o a IHa b IHb|c i m]; intros n st Hb Hf; cbn [tds vars declared bases_ok] in *.
+  4: { cbn [run_decls d_init d_name d_type].
+       destruct (declare_spec (idx_cv c n) (c_ctype c) (default_value (c_ctype c)) st) as (G & O & M & R); [apply Hf; left; reflexivity|].
+       eexists. split; [reflexivity|]. split; [eauto|]. split; [exact M|]. split; [exact R|].
+       intros y Hy. apply O. destruct (String.eqb y (idx_cv c n)) eqn:E; [|reflexivity].
+       apply String.eqb_eq in E. exfalso. apply Hy. left; auto. }
   - exists st. cbn. repeat split; auto.
   - unfold base_ok in Hb. apply andb_prop in Hb as [Hl _]. apply negb_true_iff in Hl.
     assert (N1 : String.eqb (kagg k n) (cv_name k n) = false) by (apply nm_neq; [reflexivity|exact Hl|lia]).
@@ -1200,14 +1247,14 @@ Qed.
 Theorem frag_correct (bk : backend) (e : ex) (n0 : nat) (ev : event) (ms : frame) (old : value) :
   bases_ok e = true ->
   frame_get (col_name (n0 + size e)) ms = Some (ex_type e, old) ->
-  match de ev e with
+  match dex ev e with
   | ROk v => exists ms', run_event (prog bk e n0) ms ev = ROk ([[conv (ex_type e) v]], ms') /\
                          frame_get (col_name (n0 + size e)) ms' = Some (ex_type e, conv (ex_type e) v)
   | RFault f => run_event (prog bk e n0) ms ev = RFault f
   | RStuck _ => True
   end.
 Proof.
-  intros Hb Hcol. pose proof (de_phases ev e) as Hph.
+  intros Hb Hcol. unfold dex.
   unfold prog. rewrite te_split. unfold run_event. cbn [p_body p_branches].
   set (col := col_name (n0 + size e)) in *.
   set (brs := [{| br_name := "col1"; br_var := col |}]).
@@ -1216,9 +1263,11 @@ Proof.
   destruct (decls_declared ev e n0 st0 Hb) as (st1 & E1 & D1 & M1 & R1 & U1); [intros x _; reflexivity|].
   rewrite E1. cbn [rbind]. rewrite exec_stmts_app.
   pose proof (te_exec brs ev (b_idiom bk) e n0 st1 Hb D1) as T.
-  destruct (de ev e) as [v|f|k] eqn:Ed; [| |exact I].
-  - destruct Hph as [Hs _]. rewrite Hs in T. destruct T as (st2 & E2 & M2 & R2 & U2 & B2 & V2).
-    rewrite E2. cbn [rbind]. rewrite exec_stmts_cons, exec_set, V2. cbn [rbind].
+  destruct (dstm ev e) as [[]|f|k]; cbn [rbind]; [|rewrite T; reflexivity|exact I].
+  destruct T as (st2 & E2 & M2 & R2 & U2 & B2 & V2).
+  rewrite E2. cbn [rbind]. rewrite exec_stmts_cons, exec_set.
+  destruct (de ev e) as [v|f|k] eqn:Ed; [|rewrite (V2 I); reflexivity|exact I].
+  - rewrite (V2 I). cbn [rbind].
     assert (Fc : fget col st2 = None).
     { rewrite U2, U1; [reflexivity| |]; apply col_not_var, Hb. }
     assert (Lc : lookup col st2 = Some (ex_type e, old)).
@@ -1230,7 +1279,6 @@ Proof.
     rewrite As. cbn [rbind]. rewrite exec_one. cbn [exec_stmt rbind pop_frame frames members rows fill_row map br_var].
     exists ms'. split; [|exact Hg']. rewrite R2, R1. unfold fill_row, brs. cbn [map br_var members rows st0 enter app].
     rewrite Hg'. reflexivity.
-  - rewrite Hph in T. rewrite T. reflexivity.
 Qed.
 
 (* when every predicate evaluation succeeds, the streaming Count is the length of the filtered list *)
@@ -1662,24 +1710,26 @@ Proof.
 Qed.
 
 (* what is known about a column once its code has run *)
-Definition col_done (ev : event) (c : column) (mem : string) (n : nat) (st : state) (v : value) : Prop :=
+(* p: what the first phase leaves for the second (the finished value of a vector / First column; nothing for a scalar
+   column, whose value expression is still to be evaluated) *)
+Definition col_done (ev : event) (c : column) (mem : string) (n : nat) (st : state) (p : option value) : Prop :=
   match c with
-  | ColScalar e => bound e n st /\ (exists v0, eval ev st (tc e n) = ROk v0 /\ v = conv (ex_type e) v0) /\
+  | ColScalar e => bound e n st /\ (nstuck (de ev e) -> eval ev st (tc e n) = de ev e) /\
                    (exists old, mget mem st = Some (ex_type e, old))
-  | ColVec cr ps body => (exists l, v = VVec l) /\ mget mem st = Some (col_type c, v)
-  | ColFirst cr ps body _ => mget mem st = Some (col_type c, v)
+  | ColVec cr ps body => exists v, p = Some v /\ (exists l, v = VVec l) /\ mget mem st = Some (col_type c, v)
+  | ColFirst cr ps body _ => exists v, p = Some v /\ mget mem st = Some (col_type c, v)
   end.
-Lemma col_done_ext (ev : event) (c : column) (mem : string) (n : nat) (st st' : state) (v : value) :
+Lemma col_done_ext (ev : event) (c : column) (mem : string) (n : nat) (st st' : state) (p : option value) :
   (forall x, In x (cvars c n) -> fget x st' = fget x st) -> mget mem st' = mget mem st ->
-  col_done ev c mem n st v -> col_done ev c mem n st' v.
+  col_done ev c mem n st p -> col_done ev c mem n st' p.
 Proof.
   destruct c as [e|cr ps body|cr ps body line]; cbn [col_done cvars]; intros Hf Hm D.
-  - destruct D as (B & (v0 & E & Ev) & (old & M)). split; [|split].
+  - destruct D as (B & E & (old & M)). split; [|split].
     + intros x Hx. rewrite (Hf x Hx). apply B, Hx.
-    + exists v0. split; [|exact Ev]. rewrite (tc_ext ev e n st st' B Hf). exact E.
+    + intro Hn. rewrite (tc_ext ev e n st st' B Hf). exact (E Hn).
     + exists old. rewrite Hm. exact M.
-  - destruct D as [Sh D]. split; [exact Sh|]. rewrite Hm. exact D.
-  - rewrite Hm. exact D.
+  - destruct D as (v & Ep & Sh & D). exists v. split; [exact Ep|]. split; [exact Sh|]. rewrite Hm. exact D.
+  - destruct D as (v & Ep & D). exists v. split; [exact Ep|]. rewrite Hm. exact D.
 Qed.
 
 (* one column's code *)
@@ -1688,11 +1738,11 @@ Lemma col_exec (brs : list branch) (ev : event) (idiom : string) (c : column) (m
   (forall b i, first_not_underscore b = true -> mem <> nm b i) ->
   String.eqb mem (iv_name n) = false ->
   (exists old, mget mem st = Some (col_type c, old) /\ match c with ColVec _ _ _ => old = VVec [] | _ => True end) ->
-  match dcol ev c with
-  | ROk v => exists st', exec_stmts brs ev (css idiom c mem n) st = ROk st' /\ rows st' = rows st /\
+  match dcol1 ev c with
+  | ROk p => exists st', exec_stmts brs ev (css idiom c mem n) st = ROk st' /\ rows st' = rows st /\
                          (forall y, ~ In y (cvars c n) -> fget y st' = fget y st) /\
                          (forall m, String.eqb m mem = false -> mget m st' = mget m st) /\
-                         col_done ev c mem n st' v
+                         col_done ev c mem n st' p
   | RFault f => exec_stmts brs ev (css idiom c mem n) st = RFault f
   | RStuck _ => True
   end.
@@ -1705,14 +1755,13 @@ Proof.
   assert (Hmf : forall j, String.eqb mem (if_name j) = false).
   { intro j. destruct (String.eqb mem (if_name j)) eqn:E; [|reflexivity]. apply String.eqb_eq in E. exfalso. exact (Hshape "if_else_result" (S (S j)) eq_refl E). }
   assert (Hifiv : forall j, String.eqb (if_name j) (iv_name n) = false) by (intro j; apply nm_neq_base; [reflexivity|reflexivity|discriminate]).
-  destruct c as [e|cr ps body|cr ps body line]; cbn [dcol css col_bases_ok col_declared cvars col_done col_type] in *.
-  - pose proof (de_phases ev e) as P. pose proof (te_exec brs ev idiom e n st Hb D) as T.
-    destruct (de ev e) as [v0|f|k]; cbn [rbind]; [| |exact I].
-    + destruct P as [Ps _]. rewrite Ps in T. destruct T as (st' & E & M & R & U & B & V).
-      exists st'. split; [exact E|]. split; [exact R|]. split; [exact U|]. split.
-      * intros m _. unfold mget. rewrite M. reflexivity.
-      * split; [exact B|]. split; [exists v0; split; [exact V|reflexivity]|]. exists old. unfold mget in *. rewrite M. exact Hm.
-    + rewrite P in T. exact T.
+  destruct c as [e|cr ps body|cr ps body line]; cbn [dcol1 dcol css col_bases_ok col_declared cvars col_done col_type] in *.
+  - pose proof (te_exec brs ev idiom e n st Hb D) as T.
+    destruct (dstm ev e) as [[]|f|k]; cbn [rbind]; [|exact T|exact I].
+    destruct T as (st' & E & M & R & U & B & V).
+    exists st'. split; [exact E|]. split; [exact R|]. split; [exact U|]. split.
+    + intros m _. unfold mget. rewrite M. reflexivity.
+    + split; [exact B|]. split; [exact V|]. exists old. unfold mget in *. rewrite M. exact Hm.
   - destruct D as (tcv & v0 & Dcv). unfold vec_stmts. rewrite exec_stmts_cons. cbn [exec_stmt].
     destruct (assoc_ss (c_ctype cr, c_bank cr) (ev_colls ev)) as [cval|]; [|reflexivity].
     destruct (assign_upd (vcv_name cr n) cval st tcv v0 Dcv) as (Has & _ & Hcv1 & Hoth & Mem1 & R1).
@@ -1736,7 +1785,7 @@ Proof.
       * intros y Hy. rewrite fget_updm. apply Hoth. destruct (String.eqb y (vcv_name cr n)) eqn:E; [|reflexivity].
         apply String.eqb_eq in E. exfalso. apply Hy. left; auto.
       * intros m Hmne. rewrite (O m Hmne). apply mget_upd.
-      * split; [eexists; reflexivity|exact G].
+      * exists (VVec vs). split; [reflexivity|]. split; [eexists; reflexivity|exact G].
     + rewrite (loop_push brs ev _ _ mem body ps n _ l st1 [] Hf1 Hiv Hmb Hmf Hifiv Hib Hbi Hm1); rewrite Ev; [reflexivity|exact I].
   - destruct D as [(tcv & v0 & Dcv) Disf]. unfold first_stmts. rewrite exec_stmts_cons. cbn [exec_stmt].
     destruct (assoc_ss (c_ctype cr, c_bank cr) (ev_colls ev)) as [cval|]; [|reflexivity].
@@ -1781,13 +1830,13 @@ Proof.
            { destruct (String.eqb y (vcv_name cr n)) eqn:E; [|reflexivity]. apply String.eqb_eq in E. exfalso. apply Hy. left; auto. }
            rewrite (O1 y Y1). apply (Hoth y Y2).
         -- intros m Hmne. rewrite (O2 m Hmne). rewrite mget_upd. apply mget_upd.
-        -- exact G2.
+        -- exists x. split; [reflexivity|exact G2].
       * rewrite (throw_if_armed brs ev (isf_name (n + gsize ps)) line st1 "bool" (lookup_fget _ _ _ Hisf1)). reflexivity.
     + rewrite (L I). reflexivity.
 Qed.
 
 (* ---------- all columns ---------- *)
-Fixpoint row_done (ev : event) (r : row) (nf k n : nat) (st : state) (vs : list value) : Prop :=
+Fixpoint row_done (ev : event) (r : row) (nf k n : nat) (st : state) (vs : list (option value)) : Prop :=
   match r, vs with
   | [], [] => True
   | (name, c) :: t, v :: vs' => col_done ev c (mem_name name (nf + k)) n st v /\ row_done ev t nf (S k) (n + col_size c) st vs'
@@ -1825,7 +1874,7 @@ Proof. intros b i F. apply mem_not_shape, F. Qed.
 Lemma row_exec (brs : list branch) (ev : event) (idiom : string) (r : row) : forall (nf k n : nat) (st : state),
   row_bases_ok r = true -> row_declared r n st -> mems_init r nf k st ->
   (forall m, In m (rmems r nf k) -> fget m st = None) -> NoDup (rmems r nf k) ->
-  match drow ev r with
+  match drow1 ev r with
   | ROk vs => exists st', exec_stmts brs ev (rss idiom r nf k n) st = ROk st' /\ rows st' = rows st /\
                           (forall y, ~ In y (rvars r n) -> fget y st' = fget y st) /\
                           (forall m, ~ In m (rmems r nf k) -> mget m st' = mget m st) /\
@@ -1834,14 +1883,14 @@ Lemma row_exec (brs : list branch) (ev : event) (idiom : string) (r : row) : for
   | RStuck _ => True
   end.
 Proof.
-  induction r as [|[name c] t IH]; intros nf k n st Hb D Mi Sep Nd; cbn [drow rss row_bases_ok row_declared mems_init rmems rvars] in *.
+  induction r as [|[name c] t IH]; intros nf k n st Hb D Mi Sep Nd; cbn [drow1 rss row_bases_ok row_declared mems_init rmems rvars] in *.
   - exists st. repeat split; auto.
   - apply andb_prop in Hb as [Hc Ht]. destruct D as [Dc Dt]. destruct Mi as [Mc Mt].
     set (mem := mem_name name (nf + k)) in *.
     inversion Nd as [|? ? Nin Nd']; subst.
     pose proof (col_exec brs ev idiom c mem n st Hc Dc (Sep mem (or_introl eq_refl)) (mem_name_shape name (nf + k)) (mem_neq_iv name (nf + k) n) Mc) as C.
     rewrite exec_stmts_app.
-    destruct (dcol ev c) as [v|f|kk]; cbn [rbind]; [|rewrite C; reflexivity|exact I].
+    destruct (dcol1 ev c) as [v|f|kk]; cbn [rbind]; [|rewrite C; reflexivity|exact I].
     destruct C as (st1 & E1 & R1 & U1 & Mo1 & Dn1). rewrite E1. cbn [rbind].
     assert (Dt1 : row_declared t (n + col_size c) st1).
     { eapply row_declared_ext; [|exact Dt]. intros x Hx. apply U1. intro Hxc. exact (cvars_rvars_disjoint c t n x Hc Ht Hxc Hx). }
@@ -1854,7 +1903,7 @@ Proof.
       clear - Hm Hc. revert Hm. generalize (S k). induction t as [|[nm' c'] t' IHt]; intros k' Hm; cbn [rmems] in Hm; [destruct Hm|].
       destruct Hm as [<-|Hm]; [apply mem_not_cvar, Hc|exact (IHt _ Hm)]. }
     specialize (IH nf (S k) (n + col_size c) st1 Ht Dt1 Mt1 Sep1 Nd').
-    destruct (drow ev t) as [vs|f|kk]; cbn [rbind]; [|exact IH|exact I].
+    destruct (drow1 ev t) as [vs|f|kk]; cbn [rbind]; [|exact IH|exact I].
     destruct IH as (st2 & E2 & R2 & U2 & Mo2 & Dn2).
     exists st2. split; [exact E2|]. split; [congruence|]. split; [|split; [|split]].
     + intros y Hy. rewrite U2, U1; [reflexivity| |]; intro H; apply Hy, in_or_app; auto.
@@ -1889,46 +1938,61 @@ Proof.
   intros Nin m Hm. destruct (String.eqb m mem) eqn:E; [|reflexivity]. apply String.eqb_eq in E. subst m. contradiction.
 Qed.
 
-Lemma sets_exec (brs : list branch) (ev : event) (r : row) : forall (nf k n : nat) (st : state) (vs : list value),
-  row_done ev r nf k n st vs -> (forall m, In m (rmems r nf k) -> fget m st = None) -> NoDup (rmems r nf k) ->
-  exists st', exec_stmts brs ev (rsets r nf k n) st = ROk st' /\ frames st' = frames st /\ rows st' = rows st /\
-              (forall m, ~ In m (rmems r nf k) -> mget m st' = mget m st) /\ row_filled r nf k st' vs.
+Lemma sets_exec (brs : list branch) (ev : event) (r : row) : forall (nf k n : nat) (st : state) (ps : list (option value)),
+  row_done ev r nf k n st ps -> (forall m, In m (rmems r nf k) -> fget m st = None) -> NoDup (rmems r nf k) ->
+  match drow2 ev r ps with
+  | ROk vs => exists st', exec_stmts brs ev (rsets r nf k n) st = ROk st' /\ frames st' = frames st /\ rows st' = rows st /\
+                          (forall m, ~ In m (rmems r nf k) -> mget m st' = mget m st) /\ row_filled r nf k st' vs
+  | RFault f => exec_stmts brs ev (rsets r nf k n) st = RFault f
+  | RStuck _ => True
+  end.
 Proof.
-  induction r as [|[name c] t IH]; intros nf k n st vs D Sep Nd; destruct vs as [|v vs']; cbn [row_done rsets rmems row_filled] in *; try destruct D.
+  induction r as [|[name c] t IH]; intros nf k n st ps D Sep Nd; destruct ps as [|p ps']; cbn [row_done rsets rmems row_filled drow2] in *; try destruct D.
   - exists st. repeat split; auto.
   - set (mem := mem_name name (nf + k)) in *. inversion Nd as [|? ? Nin Nd']; subst.
     rename H into Dc. rename H0 into Dt.
-    destruct c as [e|cr ps body|cr ps body line]; cbn [col_done col_size] in *.
-    + destruct Dc as (B & (v0 & E & Ev) & (old & M)).
+    destruct c as [e|cr gd body|cr gd body line]; cbn [col_done col_size dcol2] in *.
+    + destruct Dc as (B & E & (old & M)).
+      rewrite exec_stmts_cons, exec_set.
+      destruct (de ev e) as [v0|f|kk] eqn:Ed; cbn [rbind]; [|rewrite (E I); reflexivity|exact I].
+      rewrite (E I). cbn [rbind].
       destruct (assign_updm mem (conv (ex_type e) v0) st _ _ (Sep mem (or_introl eq_refl)) M) as (Ha & Hlk & G & O & Fr & Rw).
-      rewrite exec_stmts_cons, exec_set, E. cbn [rbind]. rewrite Hlk, Ha. cbn [rbind].
+      rewrite Hlk, Ha. cbn [rbind].
       set (st1 := updm mem (conv (ex_type e) v0) st) in *.
-      assert (Dt1 : row_done ev t nf (S k) (n + ex_size e) st1 vs').
+      assert (Dt1 : row_done ev t nf (S k) (n + ex_size e) st1 ps').
       { eapply row_done_ext; [| |exact Dt]; [intros x _; apply fget_updm|intros m Hm; apply O, (mem_in_neq t nf (S k) mem Nin m Hm)]. }
-      destruct (IH nf (S k) (n + ex_size e) st1 vs' Dt1) as (st2 & E2 & F2 & R2 & Mo2 & Fi2).
+      specialize (IH nf (S k) (n + ex_size e) st1 ps' Dt1).
+      assert (Sep1 : forall m, In m (rmems t nf (S k)) -> fget m st1 = None).
       { intros m Hm. unfold st1. rewrite fget_updm. apply Sep. right; exact Hm. }
-      { exact Nd'. }
+      specialize (IH Sep1 Nd').
+      destruct (drow2 ev t ps') as [vs'|f|kk]; cbn [rbind]; [|exact IH|exact I].
+      destruct IH as (st2 & E2 & F2 & R2 & Mo2 & Fi2).
       exists st2. split; [exact E2|]. split; [congruence|]. split; [congruence|]. split; [|split; [|split]].
       * intros m Hm. rewrite Mo2; [apply O|]; [|intro H; apply Hm; right; exact H].
         destruct (String.eqb m mem) eqn:Em; [|reflexivity]. apply String.eqb_eq in Em. exfalso. apply Hm. left; auto.
-      * rewrite (Mo2 mem Nin). subst v. exact G.
+      * rewrite (Mo2 mem Nin). exact G.
       * exact I.
       * exact Fi2.
-    + destruct Dc as [Sh M].
-      destruct (IH nf (S k) (n + (2 + gsize ps + nifs body)) st vs' Dt) as (st2 & E2 & F2 & R2 & Mo2 & Fi2).
-      { intros m Hm. apply Sep. right; exact Hm. }
-      { exact Nd'. }
+    + destruct Dc as (v & Ep & Sh & M). subst p. cbn [rbind].
+      specialize (IH nf (S k) (n + (2 + gsize gd + nifs body)) st ps' Dt).
+      assert (Sep1 : forall m, In m (rmems t nf (S k)) -> fget m st = None) by (intros m Hm; apply Sep; right; exact Hm).
+      specialize (IH Sep1 Nd').
+      destruct (drow2 ev t ps') as [vs'|f|kk]; cbn [rbind]; [|exact IH|exact I].
+      destruct IH as (st2 & E2 & F2 & R2 & Mo2 & Fi2).
       exists st2. split; [exact E2|]. split; [exact F2|]. split; [exact R2|]. split; [|split; [|split]].
       * intros m Hm. apply Mo2. intro H. apply Hm. right; exact H.
       * rewrite (Mo2 mem Nin). exact M.
       * exact Sh.
       * exact Fi2.
-    + destruct (IH nf (S k) (n + (3 + gsize ps)) st vs' Dt) as (st2 & E2 & F2 & R2 & Mo2 & Fi2).
-      { intros m Hm. apply Sep. right; exact Hm. }
-      { exact Nd'. }
+    + destruct Dc as (v & Ep & M). subst p. cbn [rbind].
+      specialize (IH nf (S k) (n + (3 + gsize gd)) st ps' Dt).
+      assert (Sep1 : forall m, In m (rmems t nf (S k)) -> fget m st = None) by (intros m Hm; apply Sep; right; exact Hm).
+      specialize (IH Sep1 Nd').
+      destruct (drow2 ev t ps') as [vs'|f|kk]; cbn [rbind]; [|exact IH|exact I].
+      destruct IH as (st2 & E2 & F2 & R2 & Mo2 & Fi2).
       exists st2. split; [exact E2|]. split; [exact F2|]. split; [exact R2|]. split; [|split; [|split]].
       * intros m Hm. apply Mo2. intro H. apply Hm. right; exact H.
-      * rewrite (Mo2 mem Nin). exact Dc.
+      * rewrite (Mo2 mem Nin). exact M.
       * exact I.
       * exact Fi2.
 Qed.
@@ -2098,11 +2162,14 @@ Proof.
   { intros m Hm. rewrite (U1 m (NotVar m Hm)). reflexivity. }
   assert (Mi1 : mems_init r nf 0 st1) by (eapply mems_init_of; [exact M1|exact Mi]).
   pose proof (row_exec brs ev (b_idiom bk) r nf 0 n0 st1 Hb D1 Mi1 Sep1 Nd) as RE.
-  destruct (drow ev r) as [vs|f|k]; [| rewrite RE; reflexivity | exact I].
+  unfold drow.
+  destruct (drow1 ev r) as [ps|f|k]; cbn [rbind]; [| rewrite RE; reflexivity | exact I].
   destruct RE as (st2 & E2 & R2 & U2 & Mo2 & Dn2). rewrite E2. cbn [rbind]. rewrite exec_stmts_app.
   assert (Sep2 : forall m, In m (rmems r nf 0) -> fget m st2 = None).
   { intros m Hm. rewrite (U2 m (NotVar m Hm)). apply Sep1, Hm. }
-  destruct (sets_exec brs ev r nf 0 n0 st2 vs Dn2 Sep2 Nd) as (st3 & E3 & F3 & R3 & Mo3 & Fi3).
+  pose proof (sets_exec brs ev r nf 0 n0 st2 ps Dn2 Sep2 Nd) as SE.
+  destruct (drow2 ev r ps) as [vs|f|k]; [| rewrite SE; reflexivity | exact I].
+  destruct SE as (st3 & E3 & F3 & R3 & Mo3 & Fi3).
   rewrite E3. cbn [rbind]. rewrite exec_stmts_cons. cbn [exec_stmt rbind].
   replace (fill_row brs st3) with vs by (symmetry; apply (fill_row_filled r nf 0 st3 vs Fi3)).
   set (st4 := {| frames := frames st3; members := members st3; rows := rows st3 ++ [vs] |}).
@@ -2134,9 +2201,80 @@ Proof.
   assert (Nd : NoDup (rmems r (n0 + row_size r) 0)) by (cbn; constructor; [intros []|constructor]).
   pose proof (frag_row_correct bk r n0 ev ms Hrb Nd Mi) as C. cbn zeta in C.
   assert (Ed : drow ev r = match filter f l with [] => RFault FThrow | v :: _ => ROk [conv (pa_type body) (g v)] end).
-  { unfold r. cbn [drow]. rewrite (first_col_linq ev cr ps body line f g l Ha Hp Hg). destruct (filter f l); reflexivity. }
+  { unfold r, drow. cbn [drow1 drow2 dcol1 dcol2]. rewrite (first_col_linq ev cr ps body line f g l Ha Hp Hg). destruct (filter f l); reflexivity. }
   rewrite Ed in C. destruct (filter f l) as [|v t]; [exact C|].
   destruct C as (ms' & E & _). exists ms'. exact E.
+Qed.
+
+(* C04 for the fragment: a column e.Coll(bank)[i].m() makes the job fail with std::out_of_range exactly when the
+   collection has no element number i; otherwise the row holds m() of that element *)
+Theorem frag_index_faults_iff_short (bk : backend) (name : string) (cr : collref) (i : nat) (m : string)
+        (n0 : nat) (ev : event) (ms : frame) (l : list value) :
+  let r := [(name, ColScalar (EIdx cr i m))] in
+  base_ok (c_base cr) = true -> members_init r (n0 + row_size r) 0 ms ->
+  assoc_ss (c_ctype cr, c_bank cr) (ev_colls ev) = Some (VVec l) ->
+  match nth_error l i with
+  | None => run_event (prog_row bk r n0) ms ev = RFault FOutOfRange
+  | Some v => forall x, call_method ev v m [] = ROk x ->
+              exists ms', run_event (prog_row bk r n0) ms ev = ROk ([[conv "double" x]], ms')
+  end.
+Proof.
+  intros r Hb Mi Ha.
+  assert (Hrb : row_bases_ok r = true) by (cbn; rewrite Hb; reflexivity).
+  assert (Nd : NoDup (rmems r (n0 + row_size r) 0)) by (cbn; constructor; [intros []|constructor]).
+  pose proof (frag_row_correct bk r n0 ev ms Hrb Nd Mi) as C. cbn zeta in C.
+  assert (Ed : drow ev r = match nth_error l i with
+                           | None => RFault FOutOfRange
+                           | Some v => rdo x <- call_method ev v m []; ROk [conv "double" x]
+                           end).
+  { unfold r, drow. cbn [drow1 drow2 dcol1 dcol2 dstm de ex_type]. unfold didx. rewrite Ha. cbn [rbind].
+    destruct (nth_error l i) as [v|]; [|reflexivity]. destruct (call_method ev v m []); reflexivity. }
+  rewrite Ed in C. destruct (nth_error l i) as [v|]; [|exact C].
+  intros x Hx. rewrite Hx in C. cbn [rbind] in C. destruct C as (ms' & E & _). exists ms'. exact E.
+Qed.
+
+(* the two-phase row and the ordinary column-after-column evaluation give the same rows: they can differ only in WHICH
+   fault an undefined row raises *)
+Lemma dcol12_natural (ev : event) (c : column) (v : value) :
+  (exists p, dcol1 ev c = ROk p /\ dcol2 ev c p = ROk v) <-> dcol ev c = ROk v.
+Proof.
+  destruct c as [e|cr ps body|cr ps body line]; cbn [dcol1 dcol2 dcol].
+  - split.
+    + intros (p & H1 & H2). exact H2.
+    + intro H. exists None. split; [|exact H].
+      destruct (de ev e) as [x|f|k] eqn:Ed; cbn [rbind] in H; try discriminate.
+      rewrite (dstm_of_de ev e x Ed). reflexivity.
+  - set (R := match assoc_ss (c_ctype cr, c_bank cr) (ev_colls ev) with
+              | Some (VVec l) => rdo vs <- vec_loop ev (btype body) body ps l []; ROk (VVec vs)
+              | Some VNull => RFault FNullDeref | Some _ => RStuck (KType "the bank does not hold a collection") | None => RFault FRetrieve end).
+    split.
+    + intros (p & H1 & H2). destruct R as [x|f|k]; cbn [rbind] in H1; try discriminate. inversion H1; subst. cbn in H2. exact H2.
+    + intro H. rewrite H. exists (Some v). split; reflexivity.
+  - set (R := match assoc_ss (c_ctype cr, c_bank cr) (ev_colls ev) with
+              | Some (VVec l) => rdo o <- first_loop ev (pa_type body) body ps l None; match o with Some x => ROk x | None => RFault FThrow end
+              | Some VNull => RFault FNullDeref | Some _ => RStuck (KType "the bank does not hold a collection") | None => RFault FRetrieve end).
+    split.
+    + intros (p & H1 & H2). destruct R as [x|f|k]; cbn [rbind] in H1; try discriminate. inversion H1; subst. cbn in H2. exact H2.
+    + intro H. rewrite H. exists (Some v). split; reflexivity.
+Qed.
+
+Lemma drow_natural (ev : event) (r : row) : forall vs, drow ev r = ROk vs <-> dnatrow ev r = ROk vs.
+Proof.
+  unfold drow. induction r as [|[name c] t IH]; intro vs; cbn [drow1 drow2 dnatrow].
+  - reflexivity.
+  - split.
+    + intro H. destruct (dcol1 ev c) as [p|f|k] eqn:E1; cbn [rbind] in H; try discriminate.
+      destruct (drow1 ev t) as [ps|f|k] eqn:Et; cbn [rbind] in H; try discriminate. cbn [drow2] in H.
+      destruct (dcol2 ev c p) as [v|f|k] eqn:E2; cbn [rbind] in H; try discriminate.
+      destruct (drow2 ev t ps) as [vs'|f|k] eqn:Et2; cbn [rbind] in H; try discriminate.
+      inversion H; subst.
+      rewrite (proj1 (dcol12_natural ev c v) (ex_intro _ p (conj E1 E2))). cbn [rbind].
+      rewrite (proj1 (IH vs') Et2). reflexivity.
+    + intro H. destruct (dcol ev c) as [v|f|k] eqn:Ec; cbn [rbind] in H; try discriminate.
+      destruct (dnatrow ev t) as [vs'|f|k] eqn:Et; cbn [rbind] in H; try discriminate. inversion H; subst.
+      destruct (proj2 (dcol12_natural ev c v) Ec) as (p & E1 & E2). rewrite E1. cbn [rbind].
+      pose proof (proj2 (IH vs') eq_refl) as Ht.
+      destruct (drow1 ev t) as [ps|f|k]; cbn [rbind] in Ht; try discriminate. cbn [rbind drow2]. rewrite E2. cbn [rbind]. rewrite Ht. reflexivity.
 Qed.
 
 (* and / or are as lazy as the query: once the result is known the remaining operands are not evaluated - whatever
